@@ -159,45 +159,52 @@ class Agg:
         self.samples = []
 
 
-def explore(mod, ctx, cases, chunk=None, jobs=None, sample_every=None):
-    """Run every case; returns Agg.  Sharded over forked workers, merged in order."""
-    cases = list(cases)
+def explore(mod, ctx, cases, chunk=None, jobs=None, sample_every=None, batch=250000):
+    """Run every case; returns Agg.  Sharded over forked workers, merged in case order.  `cases` may be a
+    generator: it is consumed in batches so that millions of cases do not have to be held in memory."""
+    import itertools
     agg = Agg()
-    n = len(cases)
-    if n == 0:
-        return agg
+    it = iter(cases)
     jobs = jobs or NCPU
-    if chunk is None:
-        chunk = getattr(mod, "CHUNK", None) or max(1, min(200, n // (jobs * 32) + 1))
-    chunks = [(i, cases[i:i + chunk]) for i in range(0, n, chunk)]
     _G["mod"] = mod
     _G["ctx"] = ctx
-    if jobs == 1 or n < 4:
-        results = map(_run_chunk, chunks)
-        pool = None
-    else:
-        mp = multiprocessing.get_context("fork")
-        pool = mp.Pool(jobs)
-        results = pool.imap(_run_chunk, chunks)
-    step = sample_every or max(1, n // 6)
+    pool = None
+    base = 0
     try:
-        for res in results:
-            for cls, nontriv, h, viols, extra, idx in res:
-                agg.evaluations += 1
-                agg.distinct.add(h)
-                if nontriv:
-                    agg.nontrivial.add(h)
-                agg.outcomes[cls] += 1
-                if extra:
-                    agg.extra.update(extra)
-                if idx % step == 0 and len(agg.samples) < 8:
-                    agg.samples.append({"case": jsonable(cases[idx]), "outcome": cls})
-                for fp, msg, detail in viols:
-                    if fp in agg.viols:
-                        agg.viols[fp]["count"] += 1
-                    else:
-                        agg.viols[fp] = {"msg": msg, "detail": detail,
-                                         "case": cases[idx], "index": idx, "count": 1}
+        while True:
+            part = list(itertools.islice(it, batch))
+            if not part:
+                break
+            n = len(part)
+            ck = chunk
+            if ck is None:
+                ck = getattr(mod, "CHUNK", None) or max(1, min(200, n // (jobs * 32) + 1))
+            chunks = [(base + i, part[i:i + ck]) for i in range(0, n, ck)]
+            if jobs == 1 or n < 4:
+                results = map(_run_chunk, chunks)
+            else:
+                if pool is None:
+                    pool = multiprocessing.get_context("fork").Pool(jobs)
+                results = pool.imap(_run_chunk, chunks)
+            step = sample_every or max(1, n // 6)
+            for res in results:
+                for cls, nontriv, h, viols, extra, idx in res:
+                    agg.evaluations += 1
+                    agg.distinct.add(h)
+                    if nontriv:
+                        agg.nontrivial.add(h)
+                    agg.outcomes[cls] += 1
+                    if extra:
+                        agg.extra.update(extra)
+                    if (idx - base) % step == 0 and len(agg.samples) < 8:
+                        agg.samples.append({"case": jsonable(part[idx - base]), "outcome": cls})
+                    for fp, msg, detail in viols:
+                        if fp in agg.viols:
+                            agg.viols[fp]["count"] += 1
+                        else:
+                            agg.viols[fp] = {"msg": msg, "detail": detail,
+                                             "case": part[idx - base], "index": idx, "count": 1}
+            base += n
     finally:
         if pool is not None:
             pool.terminate()
